@@ -3,11 +3,12 @@
 (* Design-level model of rnapolis.adapter AS THE CODE PERFORMS IT, one     *)
 (* action per critical step, with the C19 clauses as invariants.           *)
 (*                                                                         *)
-(* Mode "label"    unify_classification on every string over McAlphabet    *)
-(*                 up to McMaxLen:  StripN, StripA, TryBR, TryBPh,         *)
+(* One run explores all three functions (variable `mode`, chosen in Init): *)
+(* Mode "label"    unify_classification on every string of LabelSpaces     *)
+(*                 (alphabet, max length):  StripN, StripA, TryBR, TryBPh, *)
 (*                 TryStack, TryLW (KeyError contained), FallThrough       *)
 (* Mode "listing"  parse_fr3d_output / _process_interaction_line on every  *)
-(*                 listing of <= MaxLines abstract line templates:         *)
+(*                 listing of ListingSpaces (abstract line templates):     *)
 (*                 SkipLine, ParseLine (strip + split), TooFewParts,       *)
 (*                 ParseUnit1, ParseUnit2, Unify, AppendItem, Catch, Eof   *)
 (* Mode "dssr"     parse_dssr_output on every abstract document:           *)
@@ -19,14 +20,15 @@
 (***************************************************************************)
 EXTENDS ExternalImport
 
-CONSTANTS Mode,
-          McAlphabet, McMaxLen,                                   \* label mode
-          McUnitKinds, McTabKinds, McLabelKinds, McWraps, MaxLines,  \* listing mode
-          Contained,                                              \* exception types caught per line
-          McNameKinds, McLwKinds, MaxPairs, McStackKinds, MaxStackLen, MaxStacks,  \* dssr mode
-          LwTest
+CONSTANTS Modes,          \* subset of {"label", "listing", "dssr"} explored by this run
+          LabelSpaces,    \* set of <<alphabet, maxlen>>: every string over the alphabet up to maxlen
+          ListingSpaces,  \* set of [units, tabs, labels, wraps, maxlines]: every listing of such line templates
+          DssrSpaces,     \* set of [names, lws, maxpairs, stackkinds, maxstacklen, maxstacks]
+          Contained,      \* exception types caught per line by _process_interaction_line
+          LwTest          \* "members" (required) | "dir" (as implemented)
 
-VARIABLES inp,   \* the input: label | listing | document
+VARIABLES mode,  \* which function is being executed
+          inp,   \* the input: label | listing | document
           pc,    \* control state
           k,     \* loop index (line / pair / stack)
           j,     \* inner index (position in a stack)
@@ -34,7 +36,7 @@ VARIABLES inp,   \* the input: label | listing | document
           res,   \* label mode: the classification returned
           out,   \* listing: appended <<category, line index>>; dssr: [bp, st]
           exc    \* pending exception type ("" = none)
-vars == <<inp, pc, k, j, s, res, out, exc>>
+vars == <<mode, inp, pc, k, j, s, res, out, exc>>
 
 ASSUME GrammarSane
 
@@ -47,26 +49,26 @@ LowerOf(x) == IF x = "C" THEN "c" ELSE IF x = "T" THEN "t" ELSE IF x = "W" THEN 
 UpperOf(x) == IF x = "c" THEN "C" ELSE IF x = "t" THEN "T" ELSE IF x = "w" THEN "W" ELSE IF x = "h" THEN "H"
               ELSE IF x = "s" THEN "S" ELSE IF x = "n" THEN "N" ELSE IF x = "a" THEN "A" ELSE x
 
-InitLabel == /\ inp \in SeqsUpTo(McAlphabet, McMaxLen)
+InitLabel == /\ mode = "label" /\ inp \in UNION { SeqsUpTo(sp[1], sp[2]) : sp \in LabelSpaces }
              /\ s = inp /\ pc = "strip_n" /\ res = <<"none", "">>
              /\ k = 0 /\ j = 0 /\ out = <<>> /\ exc = ""
 
 StripN == /\ pc = "strip_n"
           /\ s' = IF s # <<>> /\ s[1] = "n" THEN Tail(s) ELSE s
-          /\ pc' = "strip_a" /\ UNCHANGED <<inp, k, j, res, out, exc>>
+          /\ pc' = "strip_a" /\ UNCHANGED <<mode, inp, k, j, res, out, exc>>
 StripA == /\ pc = "strip_a"
           /\ s' = IF Len(s) >= 3 /\ s[Len(s)] = "a" THEN SubSeq(s, 1, Len(s) - 1) ELSE s
-          /\ pc' = "try_br" /\ UNCHANGED <<inp, k, j, res, out, exc>>
+          /\ pc' = "try_br" /\ UNCHANGED <<mode, inp, k, j, res, out, exc>>
 TryBR == /\ pc = "try_br"
          /\ IF Len(s) = 3 /\ s[2] = "B" /\ s[3] = "R" /\ s[1] \in Digits
             THEN res' = <<"base-ribose", s[1] \o "BR">> /\ pc' = "done"       \* BR["_d"] exists for every digit
             ELSE pc' = "try_bph" /\ UNCHANGED res
-         /\ UNCHANGED <<inp, k, j, s, out, exc>>
+         /\ UNCHANGED <<mode, inp, k, j, s, out, exc>>
 TryBPh == /\ pc = "try_bph"
           /\ IF Len(s) = 4 /\ s[2] = "B" /\ s[3] = "P" /\ s[4] = "h" /\ s[1] \in Digits
              THEN res' = <<"base-phosphate", s[1] \o "BPh">> /\ pc' = "done"
              ELSE pc' = "try_stack" /\ UNCHANGED res
-          /\ UNCHANGED <<inp, k, j, s, out, exc>>
+          /\ UNCHANGED <<mode, inp, k, j, s, out, exc>>
 TryStack == /\ pc = "try_stack"
             /\ IF Len(s) = 3 /\ s[1] = "s" /\ s[2] \in {"3", "5"} /\ s[3] \in {"3", "5"}
                THEN res' = <<"stacking", IF s[2] = "3" /\ s[3] = "3" THEN "downward"
@@ -74,26 +76,26 @@ TryStack == /\ pc = "try_stack"
                                          ELSE IF s[2] = "3" /\ s[3] = "5" THEN "outward" ELSE "inward">>
                     /\ pc' = "done"
                ELSE pc' = "try_lw" /\ UNCHANGED res
-            /\ UNCHANGED <<inp, k, j, s, out, exc>>
+            /\ UNCHANGED <<mode, inp, k, j, s, out, exc>>
 TryLW == /\ pc = "try_lw"
          /\ IF Len(s) = 3 /\ LowerOf(s[1]) \in {"c", "t"}
             THEN LET lw == LowerOf(s[1]) \o UpperOf(s[2]) \o UpperOf(s[3]) IN
                  /\ res' = IF lw \in LWNames THEN <<"base-pair", lw>> ELSE Other    \* KeyError contained
                  /\ pc' = "done"
             ELSE pc' = "fall" /\ UNCHANGED res
-         /\ UNCHANGED <<inp, k, j, s, out, exc>>
-FallThrough == /\ pc = "fall" /\ res' = Other /\ pc' = "done" /\ UNCHANGED <<inp, k, j, s, out, exc>>
+         /\ UNCHANGED <<mode, inp, k, j, s, out, exc>>
+FallThrough == /\ pc = "fall" /\ res' = Other /\ pc' = "done" /\ UNCHANGED <<mode, inp, k, j, s, out, exc>>
 
 NextLabel == StripN \/ StripA \/ TryBR \/ TryBPh \/ TryStack \/ TryLW \/ FallThrough
 
-LabelMapExact == Mode = "label" /\ pc = "done" => res = Classify(inp)
+LabelMapExact == mode = "label" /\ pc = "done" => res = Classify(inp)
 \* the other direction: every label of the language over the model alphabet is reached and recognised
-LabelStepsTyped == Mode = "label" => pc \in {"strip_n", "strip_a", "try_br", "try_bph", "try_stack", "try_lw", "fall", "done"}
+LabelStepsTyped == mode = "label" => pc \in {"strip_n", "strip_a", "try_br", "try_bph", "try_stack", "try_lw", "fall", "done"}
 
 \* ------------------------------------------------------------------ listing mode
-McTemplates == { t \in DataTemplates(McWraps) : t.u1 \in McUnitKinds /\ t.u2 \in McUnitKinds
-                                                 /\ t.tabs \in McTabKinds /\ t.label \in McLabelKinds }
-               \cup { t \in OtherTemplates : t.wrap \in McWraps }
+McTemplates(sp) == { t \in DataTemplates(sp.wraps) : t.u1 \in sp.units /\ t.u2 \in sp.units
+                                                        /\ t.tabs \in sp.tabs /\ t.label \in sp.labels }
+                   \cup { t \in OtherTemplates : t.wrap \in sp.wraps }
 
 \* the tab-separated tokens of the raw line, then Python's line.strip(): empty leading/trailing
 \* columns vanish together with their tabs (the wrap whitespace goes too)
@@ -117,38 +119,38 @@ UnitError(tok) == IF tok.kind = "unit" THEN (IF UnitKindOK(tok.v) THEN "" ELSE U
                   ELSE "IndexError"                                 \* a label or "0" has a single field
 CatOfToken(tok) == IF tok.kind = "label" THEN LabelKindCat[tok.v] ELSE "other"
 
-InitListing == /\ inp \in SeqsUpTo(McTemplates, MaxLines)
+InitListing == /\ mode = "listing" /\ inp \in UNION { SeqsUpTo(McTemplates(sp), sp.maxlines) : sp \in ListingSpaces }
                /\ pc = "loop" /\ k = 0 /\ j = 0 /\ s = <<>> /\ res = <<"none", "">> /\ out = <<>> /\ exc = ""
 
 SkipLine == /\ pc = "loop" /\ k < Len(inp)
             /\ (inp[k + 1].shape # "data" \/ StrippedTokens(inp[k + 1]) = <<>>)     \* blank after strip, or '#'
-            /\ k' = k + 1 /\ UNCHANGED <<inp, pc, j, s, res, out, exc>>
+            /\ k' = k + 1 /\ UNCHANGED <<mode, inp, pc, j, s, res, out, exc>>
 ParseLine == /\ pc = "loop" /\ k < Len(inp)
              /\ inp[k + 1].shape = "data" /\ StrippedTokens(inp[k + 1]) # <<>>
              /\ k' = k + 1 /\ s' = StrippedTokens(inp[k + 1]) /\ pc' = "split"
-             /\ UNCHANGED <<inp, j, res, out, exc>>
-TooFewParts == /\ pc = "split" /\ Len(s) < 3 /\ pc' = "loop" /\ UNCHANGED <<inp, k, j, s, res, out, exc>>
+             /\ UNCHANGED <<mode, inp, j, res, out, exc>>
+TooFewParts == /\ pc = "split" /\ Len(s) < 3 /\ pc' = "loop" /\ UNCHANGED <<mode, inp, k, j, s, res, out, exc>>
 ParseUnit1 == /\ pc = "split" /\ Len(s) >= 3
               /\ IF UnitError(s[1]) = "" THEN pc' = "unit2" /\ UNCHANGED exc
                  ELSE pc' = "catch" /\ exc' = UnitError(s[1])
-              /\ UNCHANGED <<inp, k, j, s, res, out>>
+              /\ UNCHANGED <<mode, inp, k, j, s, res, out>>
 ParseUnit2 == /\ pc = "unit2"
               /\ IF UnitError(s[3]) = "" THEN pc' = "unify" /\ UNCHANGED exc
                  ELSE pc' = "catch" /\ exc' = UnitError(s[3])
-              /\ UNCHANGED <<inp, k, j, s, res, out>>
+              /\ UNCHANGED <<mode, inp, k, j, s, res, out>>
 Unify == /\ pc = "unify" /\ res' = <<CatOfToken(s[2]), "">> /\ pc' = "append"
-         /\ UNCHANGED <<inp, k, j, s, out, exc>>
+         /\ UNCHANGED <<mode, inp, k, j, s, out, exc>>
 AppendItem == /\ pc = "append" /\ out' = Append(out, <<res[1], k>>) /\ pc' = "loop"
-              /\ UNCHANGED <<inp, k, j, s, res, exc>>
+              /\ UNCHANGED <<mode, inp, k, j, s, res, exc>>
 Catch == /\ pc = "catch"
          /\ IF exc \in Contained THEN pc' = "loop" /\ exc' = "" ELSE pc' = "raised" /\ UNCHANGED exc
-         /\ UNCHANGED <<inp, k, j, s, res, out>>
-Eof == /\ pc = "loop" /\ k = Len(inp) /\ pc' = "done" /\ UNCHANGED <<inp, k, j, s, res, out, exc>>
+         /\ UNCHANGED <<mode, inp, k, j, s, res, out>>
+Eof == /\ pc = "loop" /\ k = Len(inp) /\ pc' = "done" /\ UNCHANGED <<mode, inp, k, j, s, res, out, exc>>
 
 NextListing == SkipLine \/ ParseLine \/ TooFewParts \/ ParseUnit1 \/ ParseUnit2 \/ Unify \/ AppendItem \/ Catch \/ Eof
 
-IsListingDone == Mode = "listing" /\ pc = "done"
-Fr3dNeverRaises      == Mode = "listing" => pc # "raised"
+IsListingDone == mode = "listing" /\ pc = "done"
+Fr3dNeverRaises      == mode = "listing" => pc # "raised"
 LineYieldsExactlyOne == IsListingDone => \A i \in 1..Len(inp) : TemplateKept(inp[i]) =>
                            Count(out, <<TemplateCat(inp[i]), i>>) = 1 /\ Cardinality({ x \in 1..Len(out) : out[x][2] = i }) = 1
 MalformedSkipped     == IsListingDone => \A i \in 1..Len(inp) : ~TemplateKept(inp[i]) => \A x \in 1..Len(out) : out[x][2] # i
@@ -156,10 +158,12 @@ UnknownKeptAsOther   == IsListingDone => \A i \in 1..Len(inp) :
                            TemplateKept(inp[i]) /\ LabelKindCat[inp[i].label] = "other" => Count(out, <<"other", i>>) = 1
 
 \* ------------------------------------------------------------------ dssr mode
-McPairTemplates  == { t \in PairTemplates : t.n1 \in McNameKinds /\ t.n2 \in McNameKinds /\ t.lw \in McLwKinds }
-McStackTemplates == { t \in StackTemplates(MaxStackLen) : \A i \in 1..Len(t) : t[i] \in McStackKinds }
+McPairTemplates(sp)  == { t \in PairTemplates : t.n1 \in sp.names /\ t.n2 \in sp.names /\ t.lw \in sp.lws }
+McStackTemplates(sp) == { t \in StackTemplates(sp.maxstacklen) : \A i \in 1..Len(t) : t[i] \in sp.stackkinds }
 
-InitDssr == /\ inp \in [pairs : SeqsUpTo(McPairTemplates, MaxPairs), stacks : SeqsUpTo(McStackTemplates, MaxStacks)]
+InitDssr == /\ mode = "dssr"
+            /\ inp \in UNION { [pairs : SeqsUpTo(McPairTemplates(sp), sp.maxpairs),
+                                stacks : SeqsUpTo(McStackTemplates(sp), sp.maxstacks)] : sp \in DssrSpaces }
             /\ pc = "pairs" /\ k = 0 /\ j = 0 /\ s = <<>> /\ res = <<"none", "">>
             /\ out = [bp |-> <<>>, st |-> <<>>] /\ exc = ""
 
@@ -175,35 +179,75 @@ DssrPair == /\ pc = "pairs" /\ k < Len(inp.pairs)
                ELSE /\ k' = k + 1 /\ UNCHANGED <<pc, exc>>
                     /\ out' = IF NameKindResolves(t.n1) /\ NameKindResolves(t.n2) /\ LwOutcome(t.lw) = "valid"
                               THEN [out EXCEPT !.bp = Append(@, k + 1)] ELSE out
-            /\ UNCHANGED <<inp, j, s, res>>
+            /\ UNCHANGED <<mode, inp, j, s, res>>
 DssrPairsEnd == /\ pc = "pairs" /\ k = Len(inp.pairs) /\ pc' = "stacks" /\ k' = 1 /\ j' = 2
-                /\ UNCHANGED <<inp, s, res, out, exc>>
+                /\ UNCHANGED <<mode, inp, s, res, out, exc>>
 \* names of stack k: nts_long absent -> "".split(",") = [""]: one unresolvable name
 NamesOfStack(t) == IF t = <<>> THEN << "empty" >> ELSE t
 DssrStackStep == /\ pc = "stacks" /\ k <= Len(inp.stacks) /\ j <= Len(NamesOfStack(inp.stacks[k]))
                  /\ LET nm == NamesOfStack(inp.stacks[k]) IN
                     out' = IF NameKindResolves(nm[j - 1]) /\ NameKindResolves(nm[j])
                            THEN [out EXCEPT !.st = Append(@, <<k, j>>)] ELSE out
-                 /\ j' = j + 1 /\ UNCHANGED <<inp, pc, k, s, res, exc>>
+                 /\ j' = j + 1 /\ UNCHANGED <<mode, inp, pc, k, s, res, exc>>
 DssrStackEnd == /\ pc = "stacks" /\ k <= Len(inp.stacks) /\ j > Len(NamesOfStack(inp.stacks[k]))
-                /\ k' = k + 1 /\ j' = 2 /\ UNCHANGED <<inp, pc, s, res, out, exc>>
-DssrDone == /\ pc = "stacks" /\ k > Len(inp.stacks) /\ pc' = "done" /\ UNCHANGED <<inp, k, j, s, res, out, exc>>
+                /\ k' = k + 1 /\ j' = 2 /\ UNCHANGED <<mode, inp, pc, s, res, out, exc>>
+DssrDone == /\ pc = "stacks" /\ k > Len(inp.stacks) /\ pc' = "done" /\ UNCHANGED <<mode, inp, k, j, s, res, out, exc>>
 
 NextDssr == DssrPair \/ DssrPairsEnd \/ DssrStackStep \/ DssrStackEnd \/ DssrDone
 
 ExpectedBp == LET ks == { i \in 1..Len(inp.pairs) : PairTemplateKept(inp.pairs[i]) } IN
               [x \in 1..Cardinality(ks) |-> CHOOSE i \in ks : Cardinality({ y \in ks : y < i }) = x - 1]
-ExpectedSt == { <<a, b>> \in (1..Len(inp.stacks)) \X (2..(MaxStackLen + 1)) :
-                  b <= Len(inp.stacks[a]) /\ NameKindResolves(inp.stacks[a][b - 1]) /\ NameKindResolves(inp.stacks[a][b]) }
-DssrPairsExact  == Mode = "dssr" => pc # "raised" /\ (pc = "done" => out.bp = ExpectedBp)
+ExpectedSt == UNION { { <<a, b>> : b \in { x \in 2..Len(inp.stacks[a]) :
+                                             NameKindResolves(inp.stacks[a][x - 1]) /\ NameKindResolves(inp.stacks[a][x]) } } :
+                      a \in 1..Len(inp.stacks) }
+DssrPairsExact  == mode = "dssr" => pc # "raised" /\ (pc = "done" => out.bp = ExpectedBp)
 RECURSIVE SumSteps(_)
 SumSteps(ts) == IF ts = <<>> THEN 0 ELSE StackTemplateSteps(Head(ts)) + SumSteps(Tail(ts))
-DssrStacksExact == Mode = "dssr" /\ pc = "done" =>
+DssrStacksExact == mode = "dssr" /\ pc = "done" =>
                      RangeOf(out.st) = ExpectedSt /\ Len(out.st) = Cardinality(ExpectedSt)
                      /\ Len(out.st) = SumSteps(inp.stacks)
 
+\* ------------------------------------------------------------------ named configurations (cfg: X <- Name)
+FullAlphabet == Alphabet
+AllModes     == {"label", "listing", "dssr"}
+BothContained == {"ValueError", "IndexError"}
+OnlyValueErrorContained == {"ValueError"}
+LSp(u, t, l, w, n) == [units |-> u, tabs |-> t, labels |-> l, wraps |-> w, maxlines |-> n]
+DSp(nm, lw, mp, sk, sl, ms) == [names |-> nm, lws |-> lw, maxpairs |-> mp, stackkinds |-> sk, maxstacklen |-> sl, maxstacks |-> ms]
+
+QuickLabelSpaces == { <<FullAlphabet, 3>>,
+                      <<{"n", "a", "c", "W", "s", "3", "5"}, 5>>,          \* LW + stacking with both decorations
+                      <<{"n", "a", "B", "P", "h", "7"}, 6>> }               \* n7BPha needs length 6
+QuickListingSpaces == { LSp(UnitKinds, TabKinds, LabelKinds, {"none"}, 1),   \* every line template once
+                        LSp({"plain", "few4", "nonint", "empty"}, {"three", "two"}, {"lw", "unknown", "empty"}, {"none"}, 2) }
+QuickDssrSpaces == { DSp(NameKinds, LwKinds, 1, {"exact"}, 0, 0),            \* every pair template once
+                     DSp({"exact"}, {"valid"}, 0, StackNameKinds, 4, 1),     \* every stack up to 4 names
+                     DSp({"exact", "wrongnumber"}, {"valid", "lower", "absent", "reverse", "dunder"}, 2,
+                         {"exact", "wrongnumber", "empty"}, 3, 1) }
+
+ThoroughLabelSpaces == QuickLabelSpaces \cup
+                       { <<FullAlphabet, 4>>,
+                         <<{"c", "T", "W", "h", "s", "n", "a"}, 5>>,
+                         <<{"n", "a", "B", "P", "h", "R", "7", "0"}, 6>>,
+                         <<{"n", "a", "c", "T", "W", "s", "B", "P", "h", "5"}, 6>> }
+ThoroughListingSpaces == QuickListingSpaces \cup
+                         { LSp(UnitKinds, TabKinds, LabelKinds, Wraps, 1),
+                           LSp({"plain", "icode", "few4", "nonint", "empty"}, {"three", "two", "extra"},
+                               {"lw", "stack", "unknown", "empty"}, {"none"}, 2),
+                           LSp({"plain", "few4", "nonint"}, {"three", "two"}, {"lw", "bph", "unknown"}, {"none"}, 3) }
+ThoroughDssrSpaces == QuickDssrSpaces \cup
+                      { DSp({"exact", "absent"}, {"valid", "null", "dunder"}, 2, {"exact", "wrongnumber"}, 2, 2),
+                        DSp({"exact", "prefixed", "wrongnumber"}, {"valid", "dotted", "dunder"}, 2, {"exact"}, 0, 0),
+                        DSp({"exact"}, {"valid"}, 0, StackNameKinds, 5, 1) }
+
+\* negative controls
+AsImplDssrSpaces == { DSp({"exact", "wrongnumber"}, {"valid", "lower", "reverse", "dunder"}, 2, {"exact", "wrongnumber"}, 2, 1) }
+UncontainedListingSpaces == { LSp(UnitKinds, TabKinds, {"lw"}, {"none"}, 1) }
+
 \* ------------------------------------------------------------------ dispatch
-Init == IF Mode = "label" THEN InitLabel ELSE IF Mode = "listing" THEN InitListing ELSE InitDssr
+Init == \/ "label" \in Modes /\ InitLabel
+        \/ "listing" \in Modes /\ InitListing
+        \/ "dssr" \in Modes /\ InitDssr
 \* control states are disjoint between the modes, so the actions can be listed flat (per-action coverage)
 Next == \/ StripN \/ StripA \/ TryBR \/ TryBPh \/ TryStack \/ TryLW \/ FallThrough
         \/ SkipLine \/ ParseLine \/ TooFewParts \/ ParseUnit1 \/ ParseUnit2 \/ Unify \/ AppendItem \/ Catch \/ Eof
